@@ -61,8 +61,12 @@ def zone_text(z, v, kind):
     if kind == "invalid-syntax":
         return "this is not a zone file (\n"
     base = f"$ORIGIN {z}\n$TTL 60\n@ IN SOA ns admin {v} 60 60 60 60\n"
-    if kind != "invalid-nons":      # parses, but validation fails: no apex NS
+    if kind not in ("invalid-nons", "invalid-mixed"):      # parses, but validation fails: no apex NS
         base += "@ IN NS ns\n"
+    if kind == "valid-warn":        # only a warning (in-zone MX without address): the zone loads
+        base += "@ IN MX 10 mx\nmx IN TXT \"no address here\"\n"
+    if kind == "invalid-mixed":     # an error (no apex NS) together with a warning (in-zone MX without address)
+        base += "@ IN MX 10 mx\nmx IN TXT \"no address here\"\n"
     base += f"ns IN A 127.0.0.1\n@ IN TXT \"{z}:v{v}\"\n"
     return base
 
@@ -107,7 +111,7 @@ def main():
                         if rnd.random() < 0.2:
                             use_bak[z] = not use_bak[z]
                         cur = files.get(z)
-                        choice = rnd.choice(["valid", "valid", "invalid-syntax", "invalid-nons", "missing", "unchanged"])
+                        choice = rnd.choice(["valid", "valid-warn", "invalid-syntax", "invalid-nons", "invalid-mixed", "missing", "unchanged"])
                         if choice == "unchanged" and cur is not None:
                             continue
                         if choice == "unchanged":
@@ -119,7 +123,7 @@ def main():
                             files[z] = {"k": "missing", "v": 0}
                         else:
                             write(path, zone_text(z, version, choice))
-                            files[z] = {"k": "valid", "v": version} if choice == "valid" else {"k": "invalid", "v": 0}
+                            files[z] = {"k": "valid", "v": version} if choice in ("valid", "valid-warn") else {"k": "invalid", "v": 0}
                     write(os.path.join(d, SENT + "zone"), zone_text(SENT, version, "valid"))
                     cfg = f'bind = "127.0.0.1:{port}"\n' + "".join(
                         f'[[zones]]\nname = "{z}"\npath = "{z}{"bak" if use_bak.get(z) else "zone"}"\n' for z in cfgzones + [SENT])
